@@ -18,8 +18,14 @@ const MONTHS: [&str; 12] = ["Jan", "Feb", "Mar", "Apr", "May", "Jun", "Jul", "Au
 
 /// Format seconds+nanos since the epoch in UTC. Supports %Y %m %d %H %M %S %b %Z %f and literals.
 pub fn format_utc(secs: u64, nanos: u32, fmt: &str) -> String {
-    let days = (secs / 86_400) as i64;
-    let rem = secs % 86_400;
+    format_at(secs, nanos, fmt, 0, "UTC")
+}
+
+/// The same instant on a clock `off_secs` east of UTC whose `%Z` reads `zone`.
+pub fn format_at(secs: u64, nanos: u32, fmt: &str, off_secs: i64, zone: &str) -> String {
+    let shifted = secs as i64 + off_secs;
+    let days = shifted.div_euclid(86_400);
+    let rem = shifted.rem_euclid(86_400);
     let (y, mo, d) = civil_from_days(days);
     let (hh, mm, ss) = (rem / 3600, rem % 3600 / 60, rem % 60);
     let mut out = String::new();
@@ -30,14 +36,15 @@ pub fn format_utc(secs: u64, nanos: u32, fmt: &str) -> String {
             continue;
         }
         match it.next() {
-            Some('Y') => out.push_str(&format!("{}", y)),
+            // (chrono writes years beyond 9999 with a sign)
+            Some('Y') => out.push_str(&if y > 9999 { format!("+{}", y) } else { format!("{}", y) }),
             Some('m') => out.push_str(&format!("{:02}", mo)),
             Some('d') => out.push_str(&format!("{:02}", d)),
             Some('H') => out.push_str(&format!("{:02}", hh)),
             Some('M') => out.push_str(&format!("{:02}", mm)),
             Some('S') => out.push_str(&format!("{:02}", ss)),
             Some('b') => out.push_str(MONTHS[(mo - 1) as usize]),
-            Some('Z') => out.push_str("UTC"),
+            Some('Z') => out.push_str(zone),
             Some('f') => out.push_str(&format!("{:09}", nanos)),
             Some('s') => out.push_str(&format!("{}", secs)),
             // %3f %6f %9f: that many digits, truncated; %.3f %.6f %.9f: the same after a dot
